@@ -10,7 +10,7 @@ import tempfile
 from .. import core, realcode
 from ..execmodel import col_letters
 
-PYLIKE = ['eval(1)', 'os.system("x")', 'f(\n)', 'aB(2)', "__import__('os')", 'x1(2)', 'exec(compile("a","b","exec"))', 'lambda_(x)', 'Sum(1)', 'sUM(1)', 'getattr(a,b)',
+PYLIKE = ['getX(1)', 'os.systeM("ls")', 'eval(1)', 'os.system("x")', 'f(\n)', 'aB(2)', "__import__('os')", 'x1(2)', 'exec(compile("a","b","exec"))', 'lambda_(x)', 'Sum(1)', 'sUM(1)', 'getattr(a,b)',
           'a(b)c(d)', 'open("f").read()', 'é_x(1)', 'print(\t1)', '_(1)', '9a(1)', 'aSUM(1)', 'sumIF(1,2)', 'x = y(z)', 'call()\n', 'a.b.c(1)']
 INNOCENT = ['SUM(A1)', 'IF(A1,1,2)', 'LOG10(5)', 'plain text', '(no call)', 'a (b)', 'print (1)', 'ROUND(SUM(A1:A2),1)', 'X_Y(1)', 'A1(2)', 'f(', 'g)', 'h()'[:1] + ' ()',
             'just words', '100%', 'a+b', 'TRUE', 'VLOOKUP(1,A1:B2,2,FALSE)', 'text with ) then (', 'ABC(', 'DAYS360(1,2)', 'N(1)']
@@ -37,9 +37,9 @@ def oracle(text):
     upper = [c for c in calls if c[0].isalpha() and c[0].isupper() and all(ch.isupper() or ch.isdigit() or ch == '_' for ch in c)]
     if len(upper) == len(calls):
         return 'not-listed'
-    if not upper and not re.search(r'[A-Z]\(', text):
-        return 'listed'
-    return 'open'
+    if not upper:
+        return 'listed'         # call syntax, and no identifier that is upper-case throughout: aB(2), getX(1), Sum(1) are not Excel functions
+    return 'open'               # an upper-case function call AND other call syntax in one cell: the statement leaves these open
 
 
 def run(tier, seed):
@@ -109,6 +109,29 @@ def run(tier, seed):
             realcode.write_xlsx(path, sheets)
             chk.seen(('book', b))
             chk.count('book:' + kind)
+            # one parser, the check toggled between translations: the gate follows the setting in force at each call
+            if must:
+                p = m['Parser']().set_excel_file_path(path)
+                seq = rng.choice([['off', 'get', 'on', 'get'], ['get', 'off', 'get', 'on', 'get'], ['off', 'get', 'get', 'on', 'get', 'off', 'get']])
+                state = True
+                for step in seq:
+                    if step == 'on':
+                        p.enable_safety_check(); state = True
+                    elif step == 'off':
+                        p.disable_safety_check(); state = False
+                    else:
+                        try:
+                            p.get_translation(); r = 'ok'
+                        except E2PyclSafetyException:
+                            r = 'Safety'
+                        except Exception as e:  # noqa
+                            r = 'E' + core.exc_class(e)
+                        chk.count('toggle')
+                        if state and r != 'Safety':
+                            chk.violation({'why': 'with the check enabled a workbook with a Python-like cell is translated (after toggling the check on one parser)',
+                                           'sequence': seq, 'impl': r, 'must': sorted(must), 'stream': 'gate-toggle'})
+                        if not state and r == 'Safety':
+                            chk.violation({'why': 'the safety exception is raised although the check is disabled (after toggling)', 'sequence': seq, 'stream': 'gate-toggle'})
             for enabled in (True, False):
                 p = m['Parser']().set_excel_file_path(path)
                 if not enabled:
